@@ -180,6 +180,26 @@ def model(r, M=False):
     return dict(x=x, y=y, v=v, p=p, A=A, e1=e1, e2=e2, e3=e3, e4=e4, e6=e6, w_a=w_a, w_b=(w_b if r.random() < 0.7 else w_a))
 
 
+def dump(e):
+    """Structure of a built tree INCLUDING the Python type of every constant (2 and 2.0 are different constants to NumPy's
+    integer arithmetic): what a model builds must not depend on what earlier models built."""
+    from optyx.core.expressions import Constant, BinaryOp, UnaryOp
+    out, stack = [], [e]
+    while stack and len(out) < 400:
+        t = stack.pop()
+        if isinstance(t, Constant):
+            out.append(f"Constant[{type(t.value).__name__}:{t.value!r}]")
+        elif isinstance(t, BinaryOp):
+            out.append("Bin" + t.op)
+            stack += [t.right, t.left]
+        elif isinstance(t, UnaryOp):
+            out.append("Un" + t.op)
+            stack.append(t.operand)
+        else:
+            out.append(type(t).__name__ + ":" + repr(t)[:60])
+    return out
+
+
 def entries(Md, solve=True):
     """Every public entry point that goes through a process-wide cache, on one model."""
     import numpy as np
@@ -210,6 +230,8 @@ def entries(Md, solve=True):
     pt4 = np.array([0.25 + 0.5 * k for k in range(len(V4))])
     out["views"] = [float(C.compile_expression(Md["e4"], V4)(pt4)), float(Md["e4"].evaluate({t.name: pt4[k] for k, t in enumerate(V4)}))] + \
                    [float(t) for t in C.compile_gradient(Md["e4"], V4)(pt4)]
+    out["tree_dump"] = [dump(Md[k_]) for k_ in ("e1", "e2", "e3", "e6")]
+    out["int_point"] = [float(C.compile_expression(Md["e1"], V)(np.array([2, 1, 1, 2, 0, 1][:len(V)], dtype=np.int64)))]
     out["grad_tree"] = [repr(AD.gradient(Md["e3"], w))[:200] for w in (x, y)]
     wa, wb = Md["w_a"], Md["w_b"]
     e5 = wa[0] * 3 + wa.dot(wa) + wa[1] * wa[2]
@@ -222,7 +244,11 @@ def entries(Md, solve=True):
         with warnings.catch_warnings():
             warnings.simplefilter("ignore")
             s1 = Problem().minimize(Md["e1"]).subject_to(x + y >= 1).solve(method="SLSQP")
-            s2 = Problem().maximize(Md["e2"]).subject_to(v.sum() <= 4).subject_to(x <= 3).subject_to(y <= 3).solve()
+            import stubs as _stubs
+            with _stubs.Seams(passthrough=True) as S_lp:
+                s2 = Problem().maximize(Md["e2"]).subject_to(v.sum() <= 4).subject_to(x <= 3).subject_to(y <= 3).solve()
+            # what reached linprog besides the matrices: method and every option (a process-wide default must not drift)
+            out["lp_call_options"] = [[c_["method"], sorted((k_, repr(v_)) for k_, v_ in c_["kw"].items())] for c_ in S_lp.linprog_calls]
             s3 = Problem().minimize(Md["e3"] + x * x).subject_to(x + y >= 1).solve(method="SLSQP")
         out["nlp"] = [s1.status.value, s1.objective_value, sorted(s1.values.items())]
         out["lp"] = [s2.status.value, s2.objective_value, sorted(s2.values.items())]
@@ -264,6 +290,13 @@ def prefix(seed, k_compile, k_grad):
     n = 0
     with warnings.catch_warnings():
         warnings.simplefilter("ignore")
+        # LPs of other sizes (a tiny one first, a wider one later) and the float / int twins of the constants M uses
+        t1 = Variable("t1", lb=0.0, ub=2.0)
+        Problem().minimize(t1).subject_to(t1 >= 1).solve()
+        wide = VectorVariable("wide", 30, lb=0.0, ub=1.0)
+        Problem().maximize(wide.sum()).subject_to(np.arange(1.0, 31.0) @ wide <= 40).solve()
+        xx, yy = Variable("x"), Variable("y")
+        keep.append(2.0 * xx + 3.0 * yy + 1.0 + xx ** 2.0 + (-1.0) * yy + 0 * xx + 1 * yy + 3 * xx ** 2)
         for i in range(max(3, k_compile // 12)):
             entries(model(r), solve=(i % 23 == 0))
             n += 1
